@@ -13,7 +13,8 @@ RULE = ('(a) API-built caption sets: printable-Unicode text, style dictionaries 
         'balanced flat style spans, percentage layouts at set / language / caption / node / span level, 1-3 '
         'languages; (b) caption sets returned by the six readers on generated documents (rich inline text, '
         'SCC programs). x DFXPWriter / SinglePositioningDFXPWriter / LegacyDFXPWriter x {relativize, '
-        'fit_to_screen, video size, write_inline_positioning, force}. Output judged by expat (and by lxml '
+        'fit_to_screen, video size, write_inline_positioning, force}; in one case of five the writer object has '
+        'written another set before. Output judged by expat (and by lxml '
         'when every xml:id is an NCName). Non-trivial: a metacharacter reaches an attribute or text '
         'position, or the set carries >= 2 distinct layouts.')
 ANCHORS = ['pycaption.dfxp.base:DFXPWriter.write', 'pycaption.dfxp.base:DFXPWriter._recreate_p_tag',
@@ -29,7 +30,8 @@ REQUIRE = {'writes_DFXPWriter': 100, 'writes_SinglePositioningDFXPWriter': 50, '
            'outputs_parsed': 300, 'meta_in_attribute_value': 50, 'sets_from_readers': 50,
            'inline_positioning_writes': 20, 'force_writes': 20, 'regions_defined': 100,
            'lxml_also_checked': 50, 'unused_regions_possible': 10,
-           'sets_from_styled_documents': 50, 'languages_with_concurrent_runs_written_by_a_merging_writer': 50, 'suite_dfxp_outputs_parsed': 20}
+           'sets_from_styled_documents': 50, 'languages_with_concurrent_runs_written_by_a_merging_writer': 50, 'suite_dfxp_outputs_parsed': 20,
+           'writes_by_a_writer_object_used_before': 100}
 DFXP_WRITERS = ['DFXPWriter', 'SinglePositioningDFXPWriter', 'LegacyDFXPWriter']
 NCNAME = re.compile(r'^[A-Za-z_][\w.\-]*$')
 
@@ -83,7 +85,15 @@ def cases(ctx):
                 force = rng.choice([l['lang'] for l in src['set']['langs']])
                 if rng.random() < 0.25:
                     force = rng.choice([force.upper(), force.lower(), force.swapcase()])
-        yield {'writer': writer, 'opts': gen_opts(rng, writer), 'force': force, 'src': src}
+        case = {'writer': writer, 'opts': gen_opts(rng, writer), 'force': force, 'src': src}
+        if rng.random() < 0.2:
+            # the writer object has written another set before (with a style called p in half of them)
+            prior = capsets.rich_set(rng, tag + 'P')
+            if rng.random() < 0.5:
+                prior['styles'] = dict(prior['styles'] or {})
+                prior['styles'].setdefault('p', {'color': 'red', 'font-size': '12px'})
+            case['prior'] = prior
+        yield case
 
 
 def _build(case):
@@ -129,8 +139,15 @@ def check(case, ctx):
     if case['force']:
         kw['force'] = case['force']
         ctx.count('force_writes')
+    wobj = W.make_writer(writer, case['opts'])
+    if case.get('prior'):
+        try:
+            wobj.write(dump.mk_caption_set(case['prior']))
+            ctx.count('writes_by_a_writer_object_used_before')
+        except Exception:
+            ctx.count('prior_write_refused')
     try:
-        out = W.make_writer(writer, case['opts']).write(cs, **kw)
+        out = wobj.write(cs, **kw)
     except (RelativizationError, ValueError) as e:
         ctx.count('writer_refused')
         return []
